@@ -289,7 +289,7 @@ fn brace_stats(p: &str) -> (usize, usize) {
 
 pub fn run(cx: &mut Cx) {
     cx.default_budget();
-    for k in ["compile/nested", "compile/not-nested", "verdict/match", "verdict/no-match", "names/mispairing-not-in-expansion", "names/through-a-class-around-a-group", "depth/2", "depth/3", "groups/3"] {
+    for k in ["compile/nested", "compile/not-nested", "verdict/match", "verdict/no-match", "names/mispairing-not-in-expansion", "names/through-a-class-around-a-group", "workload/meta-digrams", "depth/2", "depth/3", "groups/3"] {
         cx.ev.require(k);
     }
     if cx.tier != Tier::Mini {
@@ -394,6 +394,56 @@ pub fn run(cx: &mut Cx) {
                 check_case(ev, &p, &names, groups, depth)
             },
         );
+    }
+
+    // Metacharacter digrams around a group: every pair of characters of the
+    // glob and comparison dialects directly behind, directly in front of and
+    // inside a two-way group.  An expansion may be valid where its pieces are
+    // not and the reverse ("{foo,bar}**": every expansion is a malformed glob,
+    // the tail alone is a fine one), so whatever compiles the pieces
+    // separately differs from the union of the expansions on some digram.
+    {
+        const META: [char; 9] = ['*', '?', '[', ']', '!', '-', '<', '>', '='];
+        let mut r = cx.stream("meta-digrams");
+        let mut case = 0u64;
+        for a in META {
+            for b in META {
+                for shape in 0..4 {
+                    case += 1;
+                    if !cx.mine(case) || (cx.tier == Tier::Mini && case % 16 != 0) {
+                        continue;
+                    }
+                    let d = format!("{a}{b}");
+                    let p = match shape {
+                        0 => format!("{{foo,bar}}{d}"),
+                        1 => format!("{{foo,bar}}{d}/x"),
+                        2 => format!("{d}{{foo,bar}}-1.0"),
+                        _ => format!("p{{{d},x}}-{{1,2}}"),
+                    };
+                    if !opat::braces_nested(&p) {
+                        continue;
+                    }
+                    let mut names: Vec<String> = vec![];
+                    for e in opat::expand(&p).into_iter().take(8) {
+                        names.push(e.clone());
+                        names.push(mutate(&mut r, &e));
+                    }
+                    for n in ["foo-1.0", "foo", "bar", "foo/x", "bar-2/x", "foo-1.0/x", "zfoo-1.0", "a-foo-1.0", "px-1", "p-2", "", "foo1", "bar-0", "fooz"] {
+                        names.push(n.to_string());
+                    }
+                    names.sort();
+                    names.dedup();
+                    let (groups, depth) = brace_stats(&p);
+                    cx.check(
+                        || format!("metacharacter digram pattern {p:?} names {names:?}"),
+                        |ev| {
+                            ev.count("workload/meta-digrams");
+                            check_case(ev, &p, &names, groups, depth)
+                        },
+                    );
+                }
+            }
+        }
     }
 
     // Structural sweep: the number of groups side by side, the nesting depth
